@@ -1586,6 +1586,13 @@ def check_within(ctx, case, key, what, a, b, frames):
         # Counted and shown in the evidence; every other value is compared as before.
         ctx.count("info:disk-element-velocity-depends-on-iteration-count")
         ctx.notes["info-disk-element-velocity"] = {"what": key, "value": k, "relative": round(r, 4), "prec": prec}
+        # By the letter of C05 ("solving the same sequence again gives results within the precision") this IS a value left in
+        # the sequence that a second solve does not reproduce: it is reported under its own specific key (listed in
+        # KNOWN_FINDINGS.txt as a recorded, unrepaired finding), so that every other deviation still alarms under `key`.
+        report(ctx, "disk-element-velocity-depends-on-iteration-count",
+               f"{what}: {k} differs by {r:.3g} relative = {r / prec:.3g} x the iteration precision {prec:g}: the velocity entry handed "
+               f"down to the disk elements of a roll pass is the predecessor's after a solve call of one loop body and the pass's "
+               f"own after a longer one", {"case": case, "under": key})
         skip = {x for x in set(a.snap) | set(b.snap) if _is_handed_down_velocity(x, a.seq)}
         (r, k), _ = diff_within({x: v for x, v in a.snap.items() if x not in skip},
                                 {x: v for x, v in b.snap.items() if x not in skip}, None)
@@ -1809,6 +1816,9 @@ def check_consts(ctx, ans):
 # ---------------------------------------------------------------------------------------------------------------
 
 CORPUS = [
+    # recorded finding `disk-element-velocity-depends-on-iteration-count` (KNOWN_FINDINGS.txt, notes/C05.md observation 3): the
+    # velocity entry handed down to the disk elements of the last pass is not reproduced by a second solve with the same input
+    {"in": {"kind": "box", "size": 0.03031, "length": 2.5, "strain": 0.3, "temperature": 1323.15}, "units": [{"type": "seq", "units": [{"type": "pass", "groove": "box", "scale": 1.0, "j": [0.932, 1.089], "gap": 0.658, "disks": 4, "sprung": True}, {"type": "transport", "disks": 3, "duration": 0.214}]}, {"type": "pass", "groove": "round", "scale": 0.8, "j": [0.901, 1.033], "gap": 1.094, "disks": 4, "sprung": True}, {"type": "seq", "units": [{"type": "pass", "groove": "oval", "scale": 0.64, "j": [0.932, 0.968], "gap": 0.962, "disks": 2, "sprung": True}, {"type": "transport", "disks": 0, "duration": 1.353}]}, {"type": "pass", "groove": "round", "scale": 0.64, "j": [1.024, 1.129], "gap": 1.17, "disks": 3, "sprung": True}], "models": {"flow_stress": {"beta": 0}, "gap": {"k": 300000000.0}, "roll": {"hook": "core_temperature", "w": 0.6, "dT": 40.0, "used": True, "h": 0.02}}, "prec": 0.001, "max_iter": 100, "via": "config", "fault": {"hook": "unit.out.length", "type": "RuntimeError", "u": 0.635219}},
     # the layout of tests/test_solve.py (flow-stress model), disk elements, default limits
     {"in": {"kind": "round", "size": 30e-3, "length": 1, "strain": 0}, "models": {"flow_stress": {"beta": 0}},
      "units": [{"type": "pass", "groove": "oval", "scale": 1.0, "disks": 3},
